@@ -8,6 +8,7 @@ import (
 	"context"
 	"flag"
 	"fmt"
+	"io"
 	"math/rand"
 	"os"
 	"os/exec"
@@ -15,6 +16,7 @@ import (
 	"regexp"
 	"sort"
 	"strings"
+	"sync"
 
 	"github.com/folbricht/desync"
 
@@ -50,6 +52,19 @@ func chunkPath(base string, id desync.ChunkID, fmtS string) string {
 func write(p string, b []byte) {
 	os.MkdirAll(filepath.Dir(p), 0755)
 	os.WriteFile(p, b, 0644)
+}
+
+// lockedWriter serialises writes: Verify's workers report through the writer from several goroutines (os.Stderr in the
+// command, which is safe for that; a bytes.Buffer is not)
+type lockedWriter struct {
+	mu sync.Mutex
+	w  io.Writer
+}
+
+func (l *lockedWriter) Write(b []byte) (int, error) {
+	l.mu.Lock()
+	defer l.mu.Unlock()
+	return l.w.Write(b)
 }
 
 func main() {
@@ -194,7 +209,7 @@ func main() {
 			repair := r.Intn(2) == 0
 			var msgs bytes.Buffer
 			nw := []int{1, 4, 10}[r.Intn(3)]
-			st.Verify(context.Background(), nw, repair, &msgs)
+			st.Verify(context.Background(), nw, repair, &lockedWriter{w: &msgs}) // the workers write their messages concurrently
 			rep := map[int]bool{}
 			for _, m := range re.FindAllStringSubmatch(msgs.String(), -1) {
 				rep[idNum[m[1]]] = true
